@@ -60,8 +60,85 @@ def positional(case):
     return any(G.path_has_pos(t['match']) for t in G.case_templates(case))
 
 
+import re
+_NAME = re.compile(r'^[A-Za-z][A-Za-z0-9]*$')
+
+
+_STEP = r'(?:[A-Za-z][A-Za-z0-9]*|\*)(?:\[[1-9][0-9]?\])?'
+_PATH = re.compile(r'^%s(?:(?://|/descendant::|/)%s)*$' % (_STEP, _STEP))
+
+
+def _ok_path(p):
+    return isinstance(p, str) and bool(_PATH.match(p))
+
+
+def _ok_body(items):
+    for b in items:
+        if isinstance(b, str):
+            continue
+        if isinstance(b, dict):
+            if set(b) != {'sel'} or not (b['sel'] in G.SEL_WIRE or _NAME.match(b['sel'])):
+                return False
+        elif not (isinstance(b, list) and len(b) == 2 and isinstance(b[0], str) and _NAME.match(b[0])
+                  and isinstance(b[1], list) and _ok_body(b[1])):
+            return False
+    return True
+
+
+def _ok_tmpl(t):
+    return (isinstance(t.get('match'), str) and _ok_path(t['match']) and isinstance(t.get('body'), list)
+            and _ok_body(t['body']) and all(isinstance(t.get(k), bool) for k in ('buffer', 'once', 'recursive'))
+            and ('attrs' not in t or G.hint_flags(t['attrs']) == (t['buffer'], t['once'], t['recursive'])))
+
+
+def _ok_items(items, decl_ok=True):
+    for it in items:
+        if isinstance(it, str):
+            continue
+        if isinstance(it, dict):
+            if 'match' in it:
+                if not decl_ok or not _ok_tmpl(it):
+                    return False
+            elif 'for' in it:
+                if not (isinstance(it['for'], int) and 0 <= it['for'] <= 3 and _ok_items(it['kids'], False)):
+                    return False
+            elif 'frag' in it:
+                if not _ok_items(it['frag'], False) or any(isinstance(x, dict) for x in it['frag']):
+                    return False
+            else:
+                return False
+        elif not (isinstance(it, list) and len(it) == 2 and isinstance(it[0], str) and _NAME.match(it[0])
+                  and isinstance(it[1], list) and _ok_items(it[1], False)):
+            return False
+    return True
+
+
+def well_formed(case):
+    """a case the generators could have produced (shrinking must not leave the input language):
+    declarations are children of the root, at least one of them, names are names, indices in range"""
+    try:
+        kids = case['kids']
+        if not _ok_items(kids):
+            return False
+        n = len(G.case_templates({'kids': kids}))
+        kind = case['kind']
+        if kind in ('ref', 'staged'):
+            return n >= 1
+        if kind == 'nonmatch':
+            return _ok_tmpl(case['tmpl']) and case['tmpl']['match'] in NEVER and 0 <= case['at'] <= len(kids)
+        if kind == 'identity':
+            return _ok_path(case['path']) and 0 <= case['at'] <= len(kids)
+        if kind == 'hints':
+            return n >= 1 and all(0 <= i < n for i in case.get('buffer', []) + case.get('once', []))
+        return False
+    except Exception:
+        return False
+
+
 def oracle_case(case):
     """-> failure dict or None.  `case` = {'kind': …, 'kids': […], …}"""
+    if not well_formed(case):
+        return None
     kind = case['kind']
     base = {'kids': case['kids']}
 
@@ -288,8 +365,8 @@ def shard(arg):
 
 def run(ctx):
     nsh = 16
-    per_o = ctx.n(500, 12000)
-    per_c = ctx.n(400, 8000)
+    per_o = ctx.n(500, 9000)
+    per_c = ctx.n(400, 6000)
     res = Result()
     for r in pmap('harness.props.c12', 'shard', [(ctx.seed, i, per_o, per_c) for i in range(nsh)]):
         res.merge(r)
